@@ -116,10 +116,35 @@ pub trait GraphNameIndex: TermIndex {
 //
 
 /// A generic implementation of [`TermIndex`].
-#[derive(Clone, Debug, Default)]
+#[derive(Debug, Default)]
 pub struct SimpleTermIndex<I: Index> {
     t2i: HashMap<SimpleTerm<'static>, I>,
     i2t: Vec<SimpleTerm<'static>>,
+}
+
+impl<I: Index> Clone for SimpleTermIndex<I> {
+    fn clone(&self) -> Self {
+        let t2i = self.t2i.clone();
+        // The terms of self.i2t borrow their data from the keys of self.t2i,
+        // so cloning them would yield terms that still borrow from *self*
+        // (and dangle as soon as self is dropped).
+        // Instead, i2t is rebuilt from the keys of the new map, as in ensure_index.
+        let i2t = self
+            .i2t
+            .iter()
+            .map(|t| {
+                let (k, _) = t2i
+                    .get_key_value(t)
+                    .expect("every term of i2t is a key of t2i");
+                let t2 = k.as_simple();
+                // the following is safe,
+                // because t2 borrows data from the key in t2i,
+                // which will live as long as the clone, and will not be moved (Box<str>).
+                unsafe { std::mem::transmute::<SimpleTerm<'_>, SimpleTerm<'static>>(t2) }
+            })
+            .collect();
+        SimpleTermIndex { t2i, i2t }
+    }
 }
 
 impl<I: Index> SimpleTermIndex<I> {
